@@ -77,6 +77,17 @@ type NKey struct {
 	Name int
 }
 
+// Plain mentions builtin types in both of their spellings (byte/uint8, rune/int32), and bool: one set per
+// builtin element type that can be ordered, none for bool.
+type Plain struct {
+	OK bool
+	B  []byte
+	U  uint8
+	R  rune
+	I  int32
+	F  float64
+}
+
 // NotAKey has no tag: no set is generated for it.
 type NotAKey struct{ Z int }
 
@@ -373,7 +384,7 @@ func c17(g *Gen) {
 		files = append(files, e.Name())
 	}
 	sort.Strings(files)
-	if want := "byte.go doc.go empty.go ident.go int.go int64.go key.go nKey.go pair.go port.go string.go"; strings.Join(files, " ") != want {
+	if want := "byte.go doc.go empty.go float64.go ident.go int.go int32.go int64.go key.go nKey.go pair.go port.go string.go"; strings.Join(files, " ") != want {
 		problems = append(problems, "generated files: "+strings.Join(files, " ")+" (accepted element types should give: "+want+")")
 	}
 	g.Emit("C17.regen!", list(atom(strings.Join(problems, "; "))), boolS(len(problems) == 0), "regenerated-vs-checked-in", "filter")
